@@ -817,10 +817,8 @@ impl<'p> World<'p> {
         let new_cl = match claims {
             Some(c) => {
                 let Some(c) = self.materialise_claims(c, now_ns) else { return self.skip("claims") };
-                if c.kind() != trec.claims.kind() {
-                    return self.skip("claims-kind");
-                }
-                Some(c)
+                // claims of another payload type cannot be put into this token object: refresh as is
+                if c.kind() != trec.claims.kind() { None } else { Some(c) }
             }
             None => None,
         };
@@ -835,7 +833,8 @@ impl<'p> World<'p> {
         self.obs(&format!("reseal {} {} -> {}", bk.name(), purpose.name(), match &r { Out::Ok(s) => s.clone(), o => o.class() }));
         if draws.iter().any(|d| d.failed) {
             self.stats.bump("fault:rng-fail-fired");
-            self.judge_rng_failure(bk, &op, r.is_ok(), r.is_panic(), &r.class());
+            // the draw that failed is the one of the sealing half: same call site as a plain seal
+            self.judge_rng_failure(bk, &format!("seal-{}", purpose.name()), r.is_ok(), r.is_panic(), &r.class());
             return;
         }
         match r {
@@ -1026,6 +1025,11 @@ impl<'p> World<'p> {
         let iv = self.plan.iv.clone();
         if let Some(cost) = if wk == WrapKind::Pw { pw_cost(text) } else { None } {
             if cost.mem > 1100 * 1024 * 1024 || cost.time > 12 || cost.iter > 5_000_000 {
+                return;
+            }
+            // a blob written with parameters outside the KDF's domain has no specified value
+            if (matches!(f, 1 | 3) && cost.iter == 0) || (matches!(f, 2 | 4) && (cost.time == 0 || cost.para == 0 || cost.mem < 8 * 1024 * cost.para)) {
+                self.stats.bump("crosscheck:blob-with-out-of-domain-parameters");
                 return;
             }
         }
@@ -1543,6 +1547,18 @@ impl<'p> World<'p> {
             }
         }
 
+        // cost parameters this reader cannot execute at all (zero rounds, libsodium with lanes != 1):
+        // rejecting even the authentic blob is legitimate
+        let reader_can = if wk == WrapKind::Pw {
+            match pw_cost(&text) {
+                Some(c) if matches!(bk.family(), 1 | 3) => params_valid(bk, &PwParams::Iter(c.iter.min(u32::MAX as u64) as u32)),
+                Some(c) => params_valid(bk, &PwParams::Argon(c.mem, c.time as u32, c.para as u32)),
+                None => true,
+            }
+        } else {
+            true
+        };
+
         self.arm(&RngSpec::Prng { seed: 0xD1 }, None);
         let r = match wk {
             WrapKind::Pie => match &sec_h {
@@ -1571,6 +1587,7 @@ impl<'p> World<'p> {
                 Out::Panic(p) => self.violate("C04", "panic", bk, "expose-unwrapped", &fclass, p),
                 Out::Err(e) => self.violate("C05", "unwrapped-key-not-serialisable", bk, &op, &fclass, format!("{e:?}")),
             },
+            (Out::Err(_), Some(_)) if !reader_can => self.stats.bump("unwrap:authentic-but-parameters-unsupported-by-reader"),
             (Out::Err(e), Some(b)) => {
                 let (p, c) = if b.by_reference { ("C07", "conforming-blob-rejected") } else { ("C05", "authentic-blob-rejected") };
                 self.violate(p, c, bk, &op, &fclass, format!("exact blob with the right secret rejected: {e:?}; blob={}", truncate(&text, 100)));
